@@ -1,5 +1,6 @@
 import FGVerif.Driver.C14
 import FGVerif.Model.C15
+import FGVerif.Model.C15General
 /-! driver operations for C15 -/
 namespace C15
 open SExp C13 C14
@@ -20,10 +21,14 @@ def asSample : SExp → Option (Canon × Canon × Canon)
 /-- the property on one (implementation) sample: balanced, mapped, superposition; for Diels-Alder
     samples also the reaction-centre shape -/
 def sampleOk (da : Bool) (x g h : Graph) : Bool :=
-  balancedMappedB x g h && superpositionB x (getIts g h) && (!da || daCentreOk x)
+  balancedMappedB x g h && superpositionB x (getIts g h) && superGeneralB x g h && (!da || daCentreOk x)
 
+/-- flags: balanced+mapped; superposition with the small `getIts` of Model/C15.lean AND with the general
+    `C09.getIts` (the model validated against `fgutils.its.get_its`) through the adapter of
+    Model/C15General.lean; Diels-Alder centre -/
 def sampleFlags (da : Bool) (x g h : Graph) : SExp :=
-  .list [ofBool (balancedMappedB x g h), ofBool (superpositionB x (getIts g h)), ofBool (!da || daCentreOk x)]
+  .list [ofBool (balancedMappedB x g h), ofBool (superpositionB x (getIts g h) && superGeneralB x g h),
+         ofBool (!da || daCentreOk x)]
 
 def ofSample (x : Graph) : SExp :=
   let gh := reaction x
@@ -48,7 +53,10 @@ def handle : List SExp → Option SExp
       let hyp := wf x && !x.multi && x.edges.all (fun e => match e.2.2.2 with
         | .s o => o != 0 | .p a b => !(a == 0 && b == 0) | .nil => false) &&
         closedB x && nodupB x.nodeIds && x.nodes.all (fun p => p.2.aam == some (p.1 + 1))
-      pure (.list [.atom "ok", .list [canonGraph gh.1, canonGraph gh.2], ofBool (sampleOk da x gh.1 gh.2), specImpl, ofBool hyp])
+      -- `generalOk`: hypotheses of `C15.superposition_general`; `resuperGeneralB`: the general
+      -- `get_its(*split_its(x))` (C10.resuper through the adapter) is the lifted pattern
+      pure (.list [.atom "ok", .list [canonGraph gh.1, canonGraph gh.2], ofBool (sampleOk da x gh.1 gh.2), specImpl, ofBool hyp,
+                   ofBool (generalOk x), ofBool (resuperGeneralB x)])
   -- individual samples of a configuration along given choice paths
   | .atom "paths" :: da :: cfg :: cores :: aam :: paths :: rest => do
       let da ← asBool da
